@@ -5,10 +5,10 @@ import GuppyVerif.Props.C09
 namespace GuppyVerif.UseDef
 open GuppyVerif.Dataflow
 
-/-- total number of outgoing real edges of the listed blocks that are not compiled yet -/
+/-- total number of outgoing (real and dummy) edges of the listed blocks that are not compiled yet -/
 def pendingW (U : UCfg) (comp : Compiled) : List Blk → Nat
   | [] => 0
-  | c :: cs => (if (findC c comp).isNone then (U.succ c).length else 0) + pendingW U comp cs
+  | c :: cs => (if (findC c comp).isNone then (U.succ c ++ U.dsucc c).length else 0) + pendingW U comp cs
 
 theorem pendingW_cons_le (U : UCfg) (b : Blk) (r : Row × List Row) (comp : Compiled) :
     ∀ l, pendingW U ((b, r) :: comp) l ≤ pendingW U comp l := by
@@ -25,7 +25,7 @@ theorem pendingW_cons_le (U : UCfg) (b : Blk) (r : Row × List Row) (comp : Comp
 
 theorem pendingW_cons_lt (U : UCfg) (b : Blk) (r : Row × List Row) (comp : Compiled)
     (hn : findC b comp = none) :
-    ∀ l, b ∈ l → pendingW U ((b, r) :: comp) l + (U.succ b).length ≤ pendingW U comp l := by
+    ∀ l, b ∈ l → pendingW U ((b, r) :: comp) l + (U.succ b ++ U.dsucc b).length ≤ pendingW U comp l := by
   intro l
   induction l with
   | nil => intro h; cases h
@@ -59,7 +59,7 @@ theorem mem_revEnum_succ {p q : Blk} {i : Nat} {s : Blk} {ss : List Blk}
 
 /-- with at least `|queue| + pending edges` fuel the BFS returns (a verdict, not "out of fuel") -/
 theorem bfs_isSome (U : UCfg) (A : Ana)
-    (hcl : ∀ b ∈ U.blocks, ∀ s ∈ U.succ b, s ∈ U.blocks) :
+    (hcl : ∀ b ∈ U.blocks, ∀ s ∈ U.succ b ++ U.dsucc b, s ∈ U.blocks) :
     ∀ (fuel : Nat) (q : List (Blk × Nat × Blk)) (comp : Compiled),
       (∀ e ∈ q, e.2.2 ∈ U.blocks) → q.length + pendingW U comp U.blocks ≤ fuel →
       (bfs U A fuel q comp).isSome = true := by
@@ -98,7 +98,7 @@ theorem bfs_isSome (U : UCfg) (A : Ana)
               · obtain ⟨q1, i1, s1⟩ := e
                 exact hcl b hb s1 (mem_revEnum_succ he)
             · have := pendingW_cons_lt U b (inputRow, outs) comp hfb U.blocks hb
-              simp only [List.length_append, length_revEnum]
+              simp only [List.length_append, length_revEnum] at this ⊢
               omega
 
 /-- fuel that always suffices for `check_cfg`'s BFS -/
@@ -113,7 +113,7 @@ theorem checkCfg_isSome (U : UCfg) (hU : U.WF) (A : Ana) (fuel : Nat) (hf : bfsB
   · rename_i outs _
     apply bfs_isSome U A
     · intro b hb s hs
-      exact hU.cfg.closed b hb s (List.mem_append_left _ hs)
+      exact hU.cfg.closed b hb s hs
     · intro e he
       obtain ⟨q1, i1, s1⟩ := e
       exact hU.cfg.closed _ hU.entry_mem s1 (mem_revEnum_succ he)
